@@ -10,14 +10,22 @@ RULE = ('corpus; exhaustive binary scope (close_holes: every binary image of eve
         'box; hitmiss: 3x3 / 1x3 / 3x1 templates over {0,1,2} against every binary image up to 3x4 - thorough all 19683+27+27 '
         'templates, quick a seeded slice of the 3x3 ones); random 1-3 D x 9 integer dtypes + float32/float64 (palettes of 2-4 '
         'values: ties and plateaus, dtype limits, infinities) x 7 layouts x cross/box (and some irregular) neighbourhoods; a few 18-40 px images (long floods, many skipped rows). '
+        'Round 4: hitmiss in 1-3 D with template sides 1-5 (even sides; templates larger than the image on every subset of the axes) '
+        'and exhaustive 2x2 / 1x2 / 2x1 / 1-D / 3-D blocks judged against the proved closed form; extrema with the centre entry of Bc set '
+        'and cleared (both must agree), Bc entries other than 0/1, all-ones boxes with even sides (definition), irregular neighbourhoods '
+        '(proved clamped specification); plateau images (plateaus on the border / in corners, tied plateaus, +-inf); close_holes with every '
+        'Bc the wrapper accepts (None, 0-4 and 8, arrays of any shape / dtype / layout) and non-0/1 foreground values. '
         'Non-trivial = output neither all-true nor all-false; distinct = distinct protocol line + layout.')
 ASSUMPTIONS = ['no NaN (an order is taken); floats enter the Lean model through the order isomorphism '
                'x -> sign(x)*bits(|x|) onto integers (the kernels only compare values)',
                'locmax/locmin/regmax/regmin are compared with the definition for cross/box (symmetric, star-shaped) '
-               'neighbourhoods; for irregular neighbourhoods only model = implementation is checked',
+               'neighbourhoods; locmax/locmin also for every star-shaped neighbourhood (boxes with even sides: C14_locmax_eq_spec_any_box); '
+               'for irregular neighbourhoods locmax/locmin are compared with the proved clamped specification '
+               '(C14_locmax_clamped_spec), regmax/regmin with the model only',
                'close_holes: 2-D images (the wrapper admits nothing else), symmetric neighbourhoods for the definition',
                'hitmiss: template and image have the same rank, template entries in {0,1,2}, image values in {0,1}; '
-               'the definition is compared for odd template sides (even sides: model = implementation only)',
+               'the definition is compared for odd template sides; even sides and templates larger than the image are compared '
+               'with the proved closed form of what the kernel evaluates (C14_hitmiss_even_closed_form: outside the statement)',
                'array sizes < 2^31']
 EXHAUSTIVE = {'thorough': True}
 TRUSTED = ['numpy (array construction, layout views)', 'the float -> integer order embedding in harness/props/c14.py']
@@ -46,8 +54,19 @@ def _mk(case):
     return A
 
 
-def _bc(case, dtype):
-    return np.array(case['bc'], dtype=object).astype(dtype).reshape(case['bshape'])
+def _bc(case, dtype, bc=None):
+    """the structuring element as the caller passes it: entries of `bc` (0 / non-zero; non-0/1 values allowed) in `dtype`,
+    optionally in another memory layout (`bclayout`)"""
+    B = np.array(case['bc'] if bc is None else bc, dtype=object).astype(dtype).reshape(case['bshape'])
+    lay = case.get('bclayout', 'C')
+    return gen.relayout(B, lay) if lay != 'C' else B
+
+
+def _centre_index(bshape):
+    i = 0
+    for s in bshape:
+        i = i * s + s // 2
+    return i
 
 
 def _line(case):
@@ -134,12 +153,35 @@ def _eval_single(cases):
             regular = drv['regular'] == '1'     # the proved-sound checkers starShapedB && symNbB of the Lean model
             if regular != _symmetric_star(case):
                 f.append(dict(kind='model', key='regular-check-disagrees', detail=dict(lean=regular)))
-            if regular and g != spec:
+            # locmax/locmin: the definition holds for every star-shaped neighbourhood (C14_locmax_eq_spec; boxes with an
+            # even side by C14_locmax_eq_spec_any_box), regmax/regmin need symmetry as well
+            use_spec = regular or (op.startswith('loc') and drv.get('star') == '1')
+            if use_spec and g != spec:
                 bad = [i for i, (a, b) in enumerate(zip(g, spec)) if a != b]
                 f.append(dict(kind='property', key=f'{op}:{cls}', detail=dict(pixels=bad[:8], got=g, spec=spec)))
             elif g != model:
                 bad = [i for i, (a, b) in enumerate(zip(g, model)) if a != b]
                 f.append(dict(kind='model', key=f'{op}-model:{cls}', detail=dict(pixels=bad[:8], got=g, model=model)))
+            if op.startswith('loc'):
+                # arbitrary neighbourhoods: the proved clamped specification (C14_locmax_clamped_spec)
+                cspec = _bools(drv['cspec'])
+                if g != cspec:
+                    bad = [i for i, (a, b) in enumerate(zip(g, cspec)) if a != b]
+                    f.append(dict(kind='model', key=f'{op}-clamped:{cls}', detail=dict(pixels=bad[:8], got=g, cspec=cspec)))
+            elif drv.get('fix') != '1':
+                # the executable specification did not reach its fixed point (hypothesis of C14_regspec_eq_regional_partial)
+                f.append(dict(kind='model', key='regspec-not-fixed', detail={}))
+            # the centre entry of Bc is irrelevant (C14_remove_centre_irrelevant): set / cleared / another non-zero value
+            ci = _centre_index(case['bshape'])
+            for v in (0, 1, 3):
+                if case['bc'][ci] == v:
+                    continue
+                bc2 = list(case['bc']); bc2[ci] = v
+                got2 = np.asarray(getattr(mh, op)(Al, _bc(case, A.dtype, bc2)))
+                if not np.array_equal(got2, got):
+                    f.append(dict(kind='property' if use_spec else 'model', key=f'{op}:centre-dependent',
+                                  detail=dict(centre=v, got=g, other=[int(x) for x in got2.ravel().tolist()])))
+                    break
             if op.startswith('reg') and regular:
                 loc = np.asarray(getattr(mh, 'loc' + op[3:])(Al, Bc))
                 if np.any(got & ~loc):
@@ -148,8 +190,14 @@ def _eval_single(cases):
                 if got.dtype != np.bool_ or loc.dtype != np.bool_:
                     f.append(dict(kind='property', key=f'{op}:dtype', detail=dict(dtype=str(got.dtype))))
         elif op == 'close_holes':
-            Bc = _bc(case, bool)
+            arg = case.get('bcarg', 'array')
+            if arg == 'array':
+                Bc = _bc(case, case.get('bcdtype', 'bool'))
+            else:
+                Bc = None if arg == 'none' else int(arg)
             got = np.asarray(mh.close_holes(Al, Bc))
+            if got.dtype != np.bool_ or got.shape != Al.shape:
+                f.append(dict(kind='property', key='close_holes:dtype', detail=dict(dtype=str(got.dtype))))
             g = [int(x) for x in got.ravel(order='C').tolist()]
             regular = drv['regular'] == '1'     # symNbB of the Lean model (the theorem needs no more; the spec is undirected)
             if regular and g != spec:
@@ -158,22 +206,30 @@ def _eval_single(cases):
             elif g != model:
                 f.append(dict(kind='model', key=f'close_holes-model:{cls}', detail=dict(got=g, model=model)))
         else:  # hitmiss
-            Bc = np.array(case['bc'], dtype=object).astype(case.get('bcdtype', case['dtype'])).reshape(case['bshape'])
+            Bc = _bc(case, case.get('bcdtype', case['dtype']))
             got = np.asarray(mh.hitmiss(Al, Bc))
             g = [int(x) for x in got.ravel(order='C').tolist()]
             regular = all(b % 2 == 1 for b in case['bshape'])
+            closed = _bools(drv['closed'])
             if regular and g != spec:
                 bad = [i for i, (a, b) in enumerate(zip(g, spec)) if a != b]
                 f.append(dict(kind='property', key=f'hitmiss:{cls}', detail=dict(pixels=bad[:8], got=g, spec=spec)))
+            elif g != closed:
+                # every template shape: the proved closed form (C14_hitmiss_even_closed_form)
+                f.append(dict(kind='model', key=f'hitmiss-closed:{cls}', detail=dict(got=g, closed=closed)))
             elif g != model:
                 f.append(dict(kind='model', key=f'hitmiss-model:{cls}', detail=dict(got=g, model=model)))
+            if any(b > n or (b == n and b % 2 == 0) for b, n in zip(case['bshape'], case['shape'])) and any(g):
+                # C14_hitmiss_template_larger_is_false
+                f.append(dict(kind='model', key=f'hitmiss-larger-not-zero:{cls}', detail=dict(got=g)))
             if drv['model'] != drv['modelrev']:
                 f.append(dict(kind='model', key='hitmiss-order-dependence', detail=dict(a=drv['model'], b=drv['modelrev'])))
         if not np.array_equal(before, Al):
             f.append(dict(kind='property', key=f'{op}:input-modified', detail={}))
         res.append(dict(findings=f, nontrivial=bool(0 < sum(g) < len(g)), sig=line + case.get('layout', 'C'),
                         tags=dict(op=op, dtype=case['dtype'], ndim=len(case['shape']), layout=case.get('layout', 'C'),
-                                  nbhd=('regular' if regular else 'irregular'), size=case.get('size', 'small'))))
+                                  nbhd=('regular' if regular else 'irregular'), size=case.get('size', 'small'),
+                                  cls=case.get('cls', '-'))))
     return res
 
 
@@ -203,6 +259,11 @@ def _eval_block(case):
             raise core.Infra('driver: ' + drv['error'])
         model = _digits(drv['model'], n)
         spec = _digits(drv['spec'], n)
+        specwhich = 'property'
+        if op == 'hitmiss' and any(b % 2 == 0 for b in bshape):
+            # even template sides are outside the statement: the proved closed form takes the place of the definition
+            spec = _digits(drv['closed'], n)
+            specwhich = 'model'
         if op == 'hitmiss':
             Bc = np.array(bc, np.uint8).reshape(bshape)
             got = np.stack([mh.hitmiss(im, Bc) for im in imgs]).reshape(-1, n)
@@ -214,14 +275,15 @@ def _eval_block(case):
         nontriv += int(np.sum((got.sum(1) > 0) & (got.sum(1) < n)))
         bad = np.nonzero((got != spec).any(1))[0]
         badm = np.nonzero((got != model).any(1))[0]
-        for which, rows, ref in (('property', bad, spec), ('model', badm, model)):
+        for which, rows, ref in ((specwhich, bad, spec), ('model', badm, model)):
             if len(rows) and len(findings) < 6:
                 r = int(rows[0])
                 c = dict(op=op, dtype='uint8' if op == 'hitmiss' else 'bool', shape=list(shape),
                          data=[int(x) for x in imgs[r].ravel().tolist()], bshape=list(bshape), bc=list(bc), layout='C')
-                findings.append(dict(kind=which, key=f'{op}:C' if which == 'property' else f'{op}-model:C',
+                findings.append(dict(kind=which, key=(f'{op}:C' if which == 'property' else
+                                                      f'{op}-closed:C' if ref is spec else f'{op}-model:C'),
                                      detail=dict(got=got[r].tolist(), expected=ref[r].tolist(), rows=len(rows)), case=c))
-            if which == 'property' and len(rows):
+            if ref is spec and len(rows):
                 break
     seen, keep = set(), []
     for f in findings:
@@ -267,15 +329,21 @@ def _nbhd(rng, ndim, irregular_ok=True):
         for idx in np.ndindex(*B.shape):
             if sum(abs(i - 1) for i in idx) <= 2:
                 B[idx] = 1
-    elif r < 0.9:
+    elif r < 0.88:
         B = np.ones([rng.choice([1, 3, 5]) for _ in range(ndim)], int)
+    elif r < 0.93:     # all-ones box with even sides (star-shaped, not symmetric): C14_locmax_eq_spec_any_box
+        B = np.ones([rng.choice([1, 2, 2, 3, 4]) for _ in range(ndim)], int)
     elif irregular_ok:
         B = np.array([rng.random() < 0.5 for _ in range(int(np.prod([rng.choice([2, 3, 4])] * ndim)))], int)
         side = int(round(len(B) ** (1.0 / ndim)))
         B = B.reshape((side,) * ndim)
     else:
         B = np.ones((3,) * ndim, int)
-    return list(B.shape), [int(x) for x in B.ravel().tolist()]
+    bc = [int(x) for x in B.ravel().tolist()]
+    # the centre entry as the caller happens to pass it: set, cleared (C14_remove_centre_irrelevant)
+    if rng.random() < 0.4:
+        bc[_centre_index(list(B.shape))] = rng.choice([0, 1])
+    return list(B.shape), bc
 
 
 def _palette(rng, dtype):
@@ -307,8 +375,55 @@ def _rand_extrema_case(rng):
             data += [rng.choice(pal)] * rng.randint(1, 4)
         data = data[:n]
     bshape, bc = _nbhd(rng, len(shape))
-    return dict(op=rng.choice(LOC_OPS), dtype=dtype, shape=shape, data=data, bshape=bshape, bc=bc,
+    case = dict(op=rng.choice(LOC_OPS), dtype=dtype, shape=shape, data=data, bshape=bshape, bc=bc,
                 layout=rng.choice(gen.LAYOUTS))
+    _bc_variation(rng, case)
+    return case
+
+
+def _bc_variation(rng, case):
+    """Bc as callers pass it: non-zero entries other than 1 (the wrapper casts Bc to the dtype of the image; anything
+    non-zero is a member), a Fortran-ordered / strided Bc, sometimes a dirty caller-provided output buffer"""
+    if case['dtype'] != 'bool' and rng.random() < 0.12:
+        v = rng.choice([2, 3, 7])
+        case['bc'] = [v if x else 0 for x in case['bc']]
+    if rng.random() < 0.15:
+        case['bclayout'] = rng.choice(['F', 'strided', 'negstride', 'transposed'])
+    if rng.random() < 0.08:
+        case['_hist'] = 1
+
+
+def _rand_plateau_case(rng):
+    """plateaus by construction (1-3 D): a background, rectangles of constant value placed on the border, in corners and
+    inside; ties between separate plateaus; a plateau with one strictly better neighbour; +-inf for floats"""
+    dtype = rng.choice(['uint8', 'int16', 'int64', 'uint64', 'float32', 'float64', 'float64', 'bool'])
+    ndim = rng.choice([1, 2, 2, 2, 3])
+    shape = [rng.randint(1, 7 if ndim < 3 else 4) for _ in range(ndim)]
+    dt = np.dtype(dtype)
+    if dt == np.bool_:
+        levels = [0, 1]
+    elif dt.kind == 'f':
+        levels = sorted(rng.sample([float('-inf'), -2.5, -0.0, 0.0, 1.0, float(np.finfo(dt).max), float('inf')], 4))
+    else:
+        lo, hi = gen.dt_range(dtype)
+        levels = sorted(rng.sample(sorted({lo, lo + 1, 0 if lo <= 0 else lo + 2, 5, 9, hi - 1, hi}), 4))
+    A = np.empty(shape, dtype=object)
+    A[...] = rng.choice(levels[:2] if len(levels) > 2 else levels)
+    for _ in range(rng.randint(1, 4)):
+        sl = []
+        for n in shape:
+            w = rng.randint(1, n)
+            where = rng.choice(['lo', 'hi', 'any'])
+            a = 0 if where == 'lo' else n - w if where == 'hi' else rng.randint(0, n - w)
+            sl.append(slice(a, a + w))
+        A[tuple(sl)] = rng.choice(levels)          # the same level may be drawn twice: tied plateaus
+    if rng.random() < 0.4:                          # one pixel that spoils (or crowns) a plateau
+        A[tuple(rng.randint(0, n - 1) for n in shape)] = rng.choice(levels)
+    bshape, bc = _nbhd(rng, ndim, irregular_ok=False)
+    case = dict(op=rng.choice(['regmax', 'regmin', 'regmax', 'regmin', 'locmax', 'locmin']), dtype=dtype, shape=shape,
+                data=A.ravel().tolist(), bshape=bshape, bc=bc, layout=rng.choice(gen.LAYOUTS), cls='plateau')
+    _bc_variation(rng, case)
+    return case
 
 
 def _rand_holes_case(rng):
@@ -323,9 +438,76 @@ def _rand_holes_case(rng):
         A[y0, x0:x1 + 1] = 1; A[y1, x0:x1 + 1] = 1; A[y0:y1 + 1, x0] = 1; A[y0:y1 + 1, x1] = 1
         A[y0 + 1:y1, x0 + 1:x1] = 0
         data = [int(x) for x in A.ravel().tolist()]
-    bshape, bc = _nbhd(rng, 2)
     dtype = rng.choice(['bool', 'bool', 'uint8', 'int32', 'float64'])
-    return dict(op='close_holes', dtype=dtype, shape=shape, data=data, bshape=bshape, bc=bc, layout=rng.choice(gen.LAYOUTS))
+    case = dict(op='close_holes', dtype=dtype, shape=shape, data=data, layout=rng.choice(gen.LAYOUTS))
+    r = rng.random()
+    if r < 0.25:
+        # Bc = None or an integer: get_structuring_elem builds the element (4 -> 1 -> cross, 8 -> 2 -> box, 0 -> centre only)
+        arg = rng.choice(['none', '0', '1', '2', '3', '4', '8'])
+        case['bcarg'] = arg
+        case['bshape'] = [3, 3]
+        case['bc'] = ([0, 0, 0, 0, 1, 0, 0, 0, 0] if arg == '0' else list(CROSS) if arg in ('none', '1', '4') else list(BOX))
+        case['cls'] = 'bc-int'
+    elif r < 0.5:
+        # any 2-D array: sides 1-5 (even sides, rows, columns), any entries; dtype and layout of Bc as the caller has them
+        bshape = [rng.randint(1, 5), rng.randint(1, 5)]
+        q = rng.choice([0.4, 0.7, 1.0])
+        case['bshape'] = bshape
+        case['bc'] = [1 if rng.random() < q else 0 for _ in range(bshape[0] * bshape[1])]
+        case['bcdtype'] = rng.choice(['bool', 'uint8', 'int64', 'float64'])
+        if case['bcdtype'] != 'bool' and rng.random() < 0.5:
+            v = rng.choice([2, 3, 200]) if case['bcdtype'] != 'float64' else rng.choice([0.5, -1.0, 2.0])
+            case['bc'] = [v if x else 0 for x in case['bc']]
+        case['bclayout'] = rng.choice(['C', 'C', 'F', 'strided', 'negstride', 'transposed'])
+        case['cls'] = 'bc-array'
+    else:
+        case['bshape'], case['bc'] = _nbhd(rng, 2)
+    if dtype != 'bool' and rng.random() < 0.4:
+        # "interpreted as a binary image": any non-zero value is foreground
+        v = dict(uint8=[2, 255], int32=[-1, 7], float64=[0.5, -3.0, float('inf')])[dtype]
+        case['data'] = [rng.choice(v) if x else 0 for x in case['data']]
+    return case
+
+
+def _rand_hitmiss_nd_case(rng):
+    """1-3 D, template sides 1-5 (even sides included), on purpose templates larger than the image on every subset of the
+    axes, templates equal to the image side; judged against the proved closed form (odd sides: the definition)"""
+    ndim = rng.choice([1, 2, 2, 3])
+    maxn = {1: 9, 2: 7, 3: 4}[ndim]
+    shape = [rng.randint(1, maxn) for _ in range(ndim)]
+    mode = rng.choice(['fit', 'fit', 'larger', 'equal', 'free'])
+    bshape = []
+    larger_axes = [rng.random() < 0.5 for _ in range(ndim)]
+    if mode == 'larger' and not any(larger_axes):
+        larger_axes[rng.randrange(ndim)] = True
+    for ax, n in enumerate(shape):
+        if mode == 'fit':
+            b = rng.randint(1, min(n, 5))
+        elif mode == 'larger':
+            b = rng.randint(n + 1, n + 3) if larger_axes[ax] else rng.randint(1, min(n, 5))
+        elif mode == 'equal':
+            b = n if larger_axes[ax] else rng.randint(1, min(n, 5))
+        else:
+            b = rng.randint(1, 5)
+        bshape.append(b)
+    n = int(np.prod(shape))
+    nb = int(np.prod(bshape))
+    p = rng.choice([0.2, 0.5, 0.8, 1.0])
+    data = [1 if rng.random() < p else 0 for _ in range(n)]
+    if all(b <= m for b, m in zip(bshape, shape)) and rng.random() < 0.6:   # cut the template out of the image
+        A = np.array(data).reshape(shape)
+        at = [rng.randint(0, m - b) for b, m in zip(bshape, shape)]
+        sub = A[tuple(slice(a, a + b) for a, b in zip(at, bshape))]
+        bc = [int(v) if rng.random() < 0.7 else 2 for v in sub.ravel().tolist()]
+    else:
+        bc = [rng.choice([2, 2, 2, 0, 1]) for _ in range(nb)]
+    dtype = rng.choice(['bool', 'uint8', 'uint8', 'int32', 'uint16', 'int64'])
+    bcdtype = rng.choice([dtype, 'uint8', 'int64']) if dtype != 'bool' else rng.choice(['uint8', 'int32'])
+    case = dict(op='hitmiss', dtype=dtype, bcdtype=bcdtype, shape=shape, data=data, bshape=bshape, bc=bc,
+                layout=rng.choice(gen.LAYOUTS), cls='hm-' + mode + ('-even' if any(b % 2 == 0 for b in bshape) else '-odd'))
+    if rng.random() < 0.2:
+        case['bclayout'] = rng.choice(['F', 'strided', 'negstride', 'transposed'])
+    return case
 
 
 def _rand_hitmiss_case(rng):
@@ -402,6 +584,21 @@ def cases(rng, tier):
     for shp in shapes_small:
         for bsh in ([1, 3], [3, 1]):
             out.append(dict(block='hitmiss', shape=shp, bshape=bsh, bcs=[t for b, t in small_t if b == bsh]))
+    # round 4: even template sides, 1-D and 3-D, against the closed form (odd sides: the definition)
+    t22 = [_tern(i, 4) for i in range(81)]
+    for shp in shapes_small:
+        out.append(dict(block='hitmiss', shape=shp, bshape=[1, 2], bcs=[_tern(i, 2) for i in range(9)]))
+        out.append(dict(block='hitmiss', shape=shp, bshape=[2, 1], bcs=[_tern(i, 2) for i in range(9)]))
+        out.append(dict(block='hitmiss', shape=shp, bshape=[2, 2],
+                        bcs=t22 if tier == 'thorough' or shp in ([2, 2], [2, 3], [3, 3]) else rng.sample(t22, 12)))
+    for nlen in range(1, 9):
+        for b in (1, 2, 3, 4, 5):
+            ts = [_tern(i, b) for i in range(3 ** b)]
+            out.append(dict(block='hitmiss', shape=[nlen], bshape=[b], bcs=ts if tier == 'thorough' else rng.sample(ts, min(len(ts), 27))))
+    for shp, bsh in (([2, 2, 3], [1, 1, 3]), ([2, 2, 3], [2, 2, 2]), ([2, 3, 2], [1, 3, 1]), ([3, 2, 2], [2, 1, 2]), ([2, 2, 3], [1, 2, 3])):
+        nt = 3 ** int(np.prod(bsh))
+        ids = list(range(nt)) if (tier == 'thorough' and nt <= 729) else rng.sample(range(nt), min(nt, 10 if tier == 'quick' else 60))
+        out.append(dict(block='hitmiss', shape=shp, bshape=bsh, bcs=[_tern(i, int(np.prod(bsh))) for i in ids]))
     all33 = list(range(3 ** 9))
     if tier == 'thorough':
         step = 24
@@ -422,6 +619,10 @@ def cases(rng, tier):
         out.append(_rand_holes_case(rng))
     for _ in range(nrand[2]):
         out.append(_rand_hitmiss_case(rng))
+    for _ in range(nrand[2]):
+        out.append(_rand_hitmiss_nd_case(rng))
+    for _ in range(nrand[0] // 3):
+        out.append(_rand_plateau_case(rng))
     for i in range(dict(quick=12, thorough=90, search=30)[tier]):
         out.append(_large_case(rng, ('holes', 'reg', 'hitmiss')[i % 3]))
     rng.shuffle(out)     # spread the heavy exhaustive blocks over the worker chunks (deterministic: same rng)
